@@ -5,7 +5,7 @@ cd "$(dirname "$0")/.."
 . ./env.sh
 IDS="$*"; [ -z "$IDS" ] && IDS=$(ls seeded)
 for id in $IDS; do
-  P=$(sed -n 's/.*"property":"\(C[0-9]*\)".*/\1/p' seeded/$id/meta.json | head -1); [ -z "$P" ] && P=${id%%-*}
+  P=$(grep -oE '"property": ?"C[0-9]+"' seeded/$id/meta.json | head -1 | grep -oE 'C[0-9]+'); [ -z "$P" ] && P=${id%%-*}
   [ -n "$(git -C /repo status --porcelain)" ] && { echo "/repo not clean"; exit 2; }
   touch /tmp/.verif-repo-busy
   if ! git -C /repo apply "$PWD/seeded/$id/patch.diff" 2>/dev/null; then echo "$id PATCH-DOES-NOT-APPLY"; rm -f /tmp/.verif-repo-busy; continue; fi
